@@ -61,6 +61,275 @@ theorem shell_union_eq_cli (t : Task) :
     | @hit t h => simp at h; subst h; exact .hit hr
     | dep hd _ ih => exact .dep hd ih
 
+/-! ### the shell's work-list algorithm as coded -/
+
+/-- reachability along reverse edges -/
+inductive Reach (rev : Task → List Task) (r : Task) : Task → Prop
+  | refl : Reach rev r r
+  | step {x u} : Reach rev r x → u ∈ rev x → Reach rev r u
+
+/-- loop invariant of `shellLoop`: everything seen or queued is a dependent of the root; the root is seen or queued;
+    every dependent of a seen task is seen or queued -/
+structure WInv (rev : Task → List Task) (r : Task) (q seen : List Task) : Prop where
+  sound : ∀ x, x ∈ seen ∨ x ∈ q → Reach rev r x
+  root : r ∈ seen ∨ r ∈ q
+  closed : ∀ s, s ∈ seen → ∀ u, u ∈ rev s → u ∈ seen ∨ u ∈ q
+
+theorem mem_dropLast_or_last {α} (l : List α) (h : l ≠ []) (x : α) : x ∈ l ↔ x ∈ l.dropLast ∨ x = l.getLast h := by
+  have := List.dropLast_concat_getLast h
+  constructor
+  · intro hx
+    rw [← this] at hx
+    simpa using hx
+  · intro hx
+    rw [← this]
+    simpa using hx
+
+/-- **the work list computes exactly the dependents of the root** (whenever it terminates within the fuel) -/
+theorem shellLoop_spec (rev : Task → List Task) (r : Task) : ∀ (fuel : Nat) (q seen out : List Task), WInv rev r q seen →
+    shellLoop rev fuel q seen = some out → ∀ t, t ∈ out ↔ Reach rev r t := by
+  intro fuel
+  induction fuel with
+  | zero =>
+    intro q seen out hi h t
+    cases q with
+    | nil =>
+      simp only [shellLoop, Option.some.injEq] at h; subst h
+      constructor
+      · intro ht; exact hi.sound t (Or.inl ht)
+      · intro hr
+        induction hr with
+        | refl => rcases hi.root with h | h; exact h; simp at h
+        | step _ hu ih => rcases hi.closed _ ih _ hu with h | h; exact h; simp at h
+    | cons a as => simp [shellLoop] at h
+  | succ fuel ih =>
+    intro q seen out hi h t
+    cases q with
+    | nil =>
+      simp only [shellLoop, Option.some.injEq] at h; subst h
+      constructor
+      · intro ht; exact hi.sound t (Or.inl ht)
+      · intro hr
+        induction hr with
+        | refl => rcases hi.root with h | h; exact h; simp at h
+        | step _ hu ih => rcases hi.closed _ ih _ hu with h | h; exact h; simp at h
+    | cons a as =>
+      have hne : (a :: as) ≠ [] := by simp
+      have hmem := mem_dropLast_or_last (a :: as) hne
+      simp only [shellLoop] at h
+      split at h
+      · -- already seen: skip
+        rename_i hseen
+        have hseen' : (a :: as).getLast hne ∈ seen := by simpa using hseen
+        refine ih _ seen out ⟨?_, ?_, ?_⟩ h t
+        · intro x hx
+          rcases hx with hx | hx
+          · exact hi.sound x (Or.inl hx)
+          · exact hi.sound x (Or.inr ((hmem x).mpr (Or.inl hx)))
+        · rcases hi.root with hr | hr
+          · exact Or.inl hr
+          · rcases (hmem r).mp hr with hr | hr
+            · exact Or.inr hr
+            · left; rw [hr]; exact hseen'
+        · intro s hs u hu
+          rcases hi.closed s hs u hu with h1 | h1
+          · exact Or.inl h1
+          · rcases (hmem u).mp h1 with h2 | h2
+            · exact Or.inr h2
+            · left; rw [h2]; exact hseen'
+      · -- new: mark, invalidate, push the unseen dependents
+        rename_i hseen
+        have hlast : Reach rev r ((a :: as).getLast hne) := hi.sound _ (Or.inr ((hmem _).mpr (Or.inr rfl)))
+        refine ih _ _ out ⟨?_, ?_, ?_⟩ h t
+        · intro x hx
+          rcases hx with hx | hx
+          · simp only [List.mem_cons] at hx
+            rcases hx with hx | hx
+            · rw [hx]; exact hlast
+            · exact hi.sound x (Or.inl hx)
+          · simp only [List.mem_append, List.mem_filter] at hx
+            rcases hx with hx | ⟨hx, _⟩
+            · exact hi.sound x (Or.inr ((hmem x).mpr (Or.inl hx)))
+            · exact .step hlast hx
+        · rcases hi.root with hr | hr
+          · left; simp [hr]
+          · rcases (hmem r).mp hr with hr | hr
+            · right; simp [hr]
+            · left; simp [hr]
+        · intro s hs u hu
+          simp only [List.mem_cons] at hs
+          by_cases hin : (((a :: as).getLast hne) :: seen).contains u = true
+          · left; simpa using hin
+          · rcases hs with hs | hs
+            · right
+              simp only [List.mem_append, List.mem_filter]
+              right
+              refine ⟨by rw [← hs]; exact hu, ?_⟩
+              simpa using hin
+            · rcases hi.closed s hs u hu with h1 | h1
+              · left; simp [h1]
+              · rcases (hmem u).mp h1 with h2 | h2
+                · right; simp [h2]
+                · left; simp [h2]
+
+theorem mem_revEdges (n : Nat) (d t : Task) : t ∈ revEdges deps n d ↔ t < n ∧ d ∈ deps t := by
+  simp [revEdges]
+
+/-- dependents along the reverse edges of tasks `< n` = the specification with `hit = (· = r)` -/
+theorem reach_iff_affected (wf : ∀ t d, d ∈ deps t → d < t) (n r : Nat) (t : Task) (ht : t < n) :
+    Reach (revEdges deps n) r t ↔ Affected deps (fun x => x == r) t := by
+  constructor
+  · intro h
+    clear ht
+    induction h with
+    | refl => exact .hit (by simp)
+    | step _ hu ih => exact .dep ((mem_revEdges deps n _ _).mp hu).2 ih
+  · intro h
+    induction h with
+    | @hit t h => simp at h; subst h; exact .refl
+    | @dep t d hd _ ih =>
+      have hdt : d < t := wf t d hd
+      exact .step (ih (Nat.lt_trans hdt ht)) ((mem_revEdges deps n d t).mpr ⟨ht, hd⟩)
+
+/-- **the shell's `invalidate(r)` as coded (reverse-edge table + work list) invalidates exactly `r` and its dependents**,
+    i.e. the same set as the command line restricted to that root (`shell_union_eq_cli`, `cli_eq_spec`) -/
+theorem shell_eq_spec (wf : ∀ t d, d ∈ deps t → d < t) (n r : Nat) (hr : r < n) (fuel : Nat) (out : List Task)
+    (h : shellLoop (revEdges deps n) fuel [r] [] = some out) (t : Task) (ht : t < n) :
+    t ∈ out ↔ Affected deps (fun x => x == r) t := by
+  have hi : WInv (revEdges deps n) r [r] [] := ⟨by intro x hx; simp at hx; subst hx; exact .refl, by simp, by intro s hs; simp at hs⟩
+  rw [shellLoop_spec (revEdges deps n) r fuel [r] [] out hi h t]
+  exact reach_iff_affected deps wf n r t ht
+
+/-- nothing outside the task list is touched -/
+theorem shell_in_range (n r : Nat) (hr : r < n) (fuel : Nat) (out : List Task)
+    (h : shellLoop (revEdges deps n) fuel [r] [] = some out) (t : Task) (ht : t ∈ out) : t < n := by
+  have hi : WInv (revEdges deps n) r [r] [] := ⟨by intro x hx; simp at hx; subst hx; exact .refl, by simp, by intro s hs; simp at hs⟩
+  have := (shellLoop_spec (revEdges deps n) r fuel [r] [] out hi h t).mp ht
+  cases this with
+  | refl => exact hr
+  | step _ hu => exact ((mem_revEdges deps n _ _).mp hu).1
+
+/-! termination: the fuel the driver uses is enough -/
+
+/-- remaining work: the not yet seen tasks of the universe, each weighted by its out-degree + 1 -/
+def wsum (w : Task → Nat) (univ seen : List Task) : Nat := ((univ.filter (fun u => !seen.contains u)).map w).sum
+
+theorem wsum_notin (w : Task → Nat) (univ seen : List Task) (t : Task) (ht : t ∉ univ) :
+    wsum w univ (t :: seen) = wsum w univ seen := by
+  simp only [wsum]
+  congr 2
+  apply List.filter_congr
+  intro u hu
+  have : ¬ u = t := fun h => ht (h ▸ hu)
+  simp [this]
+
+theorem wsum_head (w : Task → Nat) (a : Task) (us seen : List Task) :
+    wsum w (a :: us) seen = (if seen.contains a then 0 else w a) + wsum w us seen := by
+  simp only [wsum, List.filter_cons]
+  cases h : seen.contains a <;> simp
+
+theorem wsum_cons (w : Task → Nat) (univ seen : List Task) (t : Task) (hn : univ.Nodup) (ht : t ∈ univ) (hs : t ∉ seen) :
+    wsum w univ (t :: seen) + w t = wsum w univ seen := by
+  induction univ with
+  | nil => simp at ht
+  | cons a us ih =>
+    simp only [List.nodup_cons] at hn
+    rw [wsum_head, wsum_head]
+    by_cases hat : a = t
+    · subst hat
+      rw [wsum_notin w us seen a hn.1]
+      have hc : seen.contains a = false := by simpa using hs
+      have h1 : (a :: seen).contains a = true := by simp
+      rw [h1, hc]
+      simp only [if_true, Bool.false_eq_true, if_false]
+      omega
+    · have htu : t ∈ us := by
+        simp only [List.mem_cons] at ht
+        rcases ht with h | h
+        · exact absurd h.symm hat
+        · exact h
+      have ih' := ih hn.2 htu
+      have hc : (t :: seen).contains a = seen.contains a := by
+        simp [hat]
+      rw [hc]
+      omega
+
+/-- **the work list ends**: with fuel at least `|queue| + Σ_{unseen u} (outdegree u + 1)` the loop returns -/
+theorem shellLoop_terminates (rev : Task → List Task) (univ : List Task) (hn : univ.Nodup)
+    (hrev : ∀ x u, u ∈ rev x → u ∈ univ) : ∀ (fuel : Nat) (q seen : List Task), (∀ x, x ∈ q → x ∈ univ) →
+      q.length + wsum (fun u => (rev u).length + 1) univ seen ≤ fuel → (shellLoop rev fuel q seen).isSome = true := by
+  intro fuel
+  induction fuel with
+  | zero =>
+    intro q seen hq hm
+    cases q with
+    | nil => simp [shellLoop]
+    | cons a as => simp at hm
+  | succ fuel ih =>
+    intro q seen hq hm
+    cases q with
+    | nil => simp [shellLoop]
+    | cons a as =>
+      have hne : (a :: as) ≠ [] := by simp
+      have hmem := mem_dropLast_or_last (a :: as) hne
+      have hlen : (a :: as).dropLast.length + 1 = (a :: as).length := by simp
+      simp only [shellLoop]
+      split
+      · apply ih
+        · intro x hx; exact hq x ((hmem x).mpr (Or.inl hx))
+        · simp only [List.length_cons] at hm hlen ⊢; omega
+      · rename_i hseen
+        have hts : (a :: as).getLast hne ∉ seen := by simpa using hseen
+        have htu : (a :: as).getLast hne ∈ univ := hq _ ((hmem _).mpr (Or.inr rfl))
+        have hw := wsum_cons (fun u => (rev u).length + 1) univ seen _ hn htu hts
+        apply ih
+        · intro x hx
+          simp only [List.mem_append, List.mem_filter] at hx
+          rcases hx with hx | ⟨hx, _⟩
+          · exact hq x ((hmem x).mpr (Or.inl hx))
+          · exact hrev _ x hx
+        · have hfl := List.length_filter_le (fun u => !(((a :: as).getLast hne) :: seen).contains u) (rev ((a :: as).getLast hne))
+          simp only [List.length_append, List.length_cons] at hm hlen ⊢
+          omega
+
+/-- for the reverse-edge table of `n` tasks the driver's fuel `n*n + n + 2` is enough, whatever the root -/
+theorem shell_terminates (n r : Nat) (hr : r < n) : (shellLoop (revEdges deps n) (n * n + n + 2) [r] []).isSome = true := by
+  apply shellLoop_terminates (revEdges deps n) (List.range n) List.nodup_range
+  · intro x u hu; simp only [revEdges, List.mem_filter, List.mem_range] at hu; simpa using hu.1
+  · intro x hx; simp at hx; subst hx; simpa using hr
+  · -- Σ_{u < n} (|rev u| + 1) ≤ n * (n + 1)
+    have hb : ∀ (l : List Task), ((l.map (fun u => (revEdges deps n u).length + 1)).sum) ≤ l.length * (n + 1) := by
+      intro l
+      induction l with
+      | nil => simp
+      | cons a l ih =>
+        have ha : (revEdges deps n a).length ≤ n := by
+          simp only [revEdges]
+          exact Nat.le_trans (List.length_filter_le _ _) (by simp)
+        simp only [List.map_cons, List.sum_cons, List.length_cons]
+        have : (l.length + 1) * (n + 1) = l.length * (n + 1) + (n + 1) := by rw [Nat.add_mul]; simp
+        omega
+    have h1 := hb ((List.range n).filter (fun u => !([] : List Task).contains u))
+    have h2 : ((List.range n).filter (fun u => !([] : List Task).contains u)).length ≤ n := by
+      exact Nat.le_trans (List.length_filter_le _ _) (by simp)
+    have h3 : ((List.range n).filter (fun u => !([] : List Task).contains u)).length * (n + 1) ≤ n * (n + 1) :=
+      Nat.mul_le_mul_right _ h2
+    have h4 : n * (n + 1) = n * n + n := by rw [Nat.mul_add]; simp
+    simp only [wsum, List.length_cons, List.length_nil]
+    omega
+
+/-- **total correctness of the shell's `invalidate(r)`**: it ends, and has then invalidated exactly `r` and its dependents -/
+theorem shell_total (wf : ∀ t d, d ∈ deps t → d < t) (n r : Nat) (hr : r < n) :
+    ∃ out, shellLoop (revEdges deps n) (n * n + n + 2) [r] [] = some out ∧
+      ∀ t, t < n → (t ∈ out ↔ Affected deps (fun x => x == r) t) := by
+  have ht := shell_terminates deps n r hr
+  cases h : shellLoop (revEdges deps n) (n * n + n + 2) [r] [] with
+  | none => rw [h] at ht; simp at ht
+  | some out => exact ⟨out, rfl, fun t htn => shell_eq_spec deps wf n r hr _ out h t htn⟩
+
+/-- the example -/
+example : shellLoop (revEdges (fun t => if t = 1 ∨ t = 2 then [0] else if t = 3 then [1, 2] else []) 5) 40 [0] [] = some [1, 3, 2, 0] := by decide
+
 /-- **exactly the dependents lose their result, every other result is untouched** -/
 theorem store_after {V} (res : Task → Option V) (t : Task) :
     (aff deps hit t = true → invalidateStore res (aff deps hit) t = none) ∧
